@@ -70,6 +70,34 @@ def trap_stub(ctx, tE, tS, log, after=None):
     return stub
 
 
+def pair_facts(w, cpre, tE, tS, th, goal_t, yj, xjk, y_node=None):
+    """Iterate facts for the LAST adjacent pair of the lists built by
+    `_attractor_under_assumptions` (all that the loop touches in one round):
+
+      x[-1][k] == (h_k /\ CPre x[-1][k]) \/ CPre(y[-2]) \/ goal      (y[-2] := FALSE for a single entry)
+      y[-1]    == y[-2] \/ \/_k x[-1][k]
+
+    The lists are only ever appended to, so by induction on their length the
+    facts hold for EVERY adjacent pair (that lifting is a meta-step, not a
+    solver obligation)."""
+    K = len(th)
+    ok = (len(yj) == len(xjk) >= 1 and all(len(xk) == K for xk in xjk))
+    out = [('iterates_structure', z3.BoolVal(ok))]
+    if not ok:
+        return out
+    prev = w.term(yj[-2]) if len(yj) >= 2 else z3.BoolVal(False)
+    acc = prev
+    for k in range(K):
+        x = w.term(xjk[-1][k])
+        out.append((f'iterates_x{k}_fixpoint_eq', spec.equiv(w, x, z3.Or(
+            z3.And(th[k], cpre(tE, tS, x)), cpre(tE, tS, prev), goal_t))))
+        acc = z3.Or(acc, x)
+    out.append(('iterates_y_is_union', spec.equiv(w, w.term(yj[-1]), acc)))
+    if y_node is not None:
+        out.append(('iterates_last_is_y', spec.equiv(w, w.term(yj[-1]), w.term(y_node))))
+    return out
+
+
 def _index_is(lst, item):
     for i, v in enumerate(lst):
         if v is item:
@@ -110,6 +138,18 @@ def h_attractor_under_assumptions(ctx):
         w.assume(B[k].greatest_at(g.X, f'x_{k}'))
         w.assume(g.greatest_at(Q[k], f'Q{k}'))
 
+    def _havoc_lists(w_, L):
+        # the two lists after at least one round: their last adjacent pair
+        if L['yold'] is None:
+            return
+        if w_.run.decide(z3.Bool('single_round_so_far')):
+            L['yj'][:] = [L['y']]
+            L['xjk'][:] = [[w_.pred(f'xl!{k}', w_.STATE) for k in range(K)]]
+        else:
+            L['yj'][:] = [L['yold'], L['y']]
+            L['xjk'][:] = [[w_.pred(f'xp!{k}', w_.STATE) for k in range(K)],
+                           [w_.pred(f'xl!{k}', w_.STATE) for k in range(K)]]
+
     def inv(L):
         y, yold = L['y'], L['yold']
         ty = w.term(y)
@@ -122,6 +162,12 @@ def h_attractor_under_assumptions(ctx):
             for k in range(K):
                 out.append((f'gfp{k}_of_yold_below_y', z3.Implies(
                     prefixed_hyp(k, tyo), spec.subset(w, Q[k], ty))))
+            out += pair_facts(w, cpre, tE, tS, th, tgoal, L['yj'], L['xjk'], y)
+            if len(L['yj']) >= 2:
+                out.append(('iterates_prev_is_yold', spec.equiv(w, w.term(L['yj'][-2]), tyo)))
+            elif len(L['yj']) == 1:
+                out.append(('iterates_first_round_started_from_FALSE',
+                            spec.equiv(w, tyo, z3.BoolVal(False))))
         return out
 
     loops = {0: dict(
@@ -131,6 +177,7 @@ def h_attractor_under_assumptions(ctx):
                   unless=_state_pred_maker('unless!h'),
                   xk=lambda w_, L: list(), safe=lambda w_, L: None,
                   x=lambda w_, L: None),
+        mutated=dict(lists=_havoc_lists),
         inv=inv)}
     before = snapshot(aut)
     if w.symbolic:
@@ -143,6 +190,8 @@ def h_attractor_under_assumptions(ctx):
     y, yj, xjk = ctx.call(f, goal, aut, label='_attractor_under_assumptions')
     ty = w.term(y)
     if w.symbolic:
+        for label, fm in pair_facts(w, cpre, tE, tS, th, tgoal, yj, xjk, y):
+            w.oblige(f'_attractor_under_assumptions.post: {label} (last adjacent pair of the recorded iterates; all pairs by induction on the list length)', fm)
         for k in range(K):
             w.oblige(f'_attractor_under_assumptions.post: GFP_{k}(CPre y \\/ goal) <= y   (pre-fixed point)',
                      z3.Implies(prefixed_hyp(k, ty), spec.subset(w, Q[k], ty)))
@@ -208,8 +257,16 @@ def aua_stub(ctx, tE, tS, th, log, after=None):
                              f'aua!{cnt[0]}')
         if after is not None:
             after(cnt[0] - 1, lf)
-        # iterate lists are not constrained here (their contract is used by C02)
-        return y, [y], [[y]]
+        # recorded iterates: the last adjacent pair with its facts (contract
+        # proved in h_attractor_under_assumptions)
+        K = len(th)
+        yp = w.pred(f'aua!{cnt[0]}yp', w.STATE)
+        xl = [w.pred(f'aua!{cnt[0]}x{k}', w.STATE) for k in range(K)]
+        xq = [w.pred(f'aua!{cnt[0]}q{k}', w.STATE) for k in range(K)]
+        yj, xjk = [yp, y], [xq, xl]
+        for label, fm in pair_facts(w, cpre, tE, tS, th, goal.t, yj, xjk, y):
+            w.assume(fm)
+        return y, yj, xjk
     return stub
 
 
@@ -281,8 +338,10 @@ def h_solve_streett_game(ctx):
     def _havoc_iterates(w_, L):
         # after at least one round the lists hold one entry per goal
         if L['zold'] is not None:
-            L['yij'][:] = [[w_.pred('yh!%d' % j, w_.STATE)] for j in range(J)]
-            L['xijk'][:] = [[[w_.pred('xh!%d_%d' % (j, k), w_.STATE) for k in range(K)]]
+            L['yij'][:] = [[w_.pred('yp!%d' % j, w_.STATE), w_.pred('yh!%d' % j, w_.STATE)]
+                           for j in range(J)]
+            L['xijk'][:] = [[[w_.pred('xq!%d_%d' % (j, k), w_.STATE) for k in range(K)],
+                             [w_.pred('xh!%d_%d' % (j, k), w_.STATE) for k in range(K)]]
                             for j in range(J)]
 
     def inv(L):
@@ -291,10 +350,17 @@ def h_solve_streett_game(ctx):
         out = [('typing', _syntactic(w, z, zold)),
                ('Q_below_z', spec.subset(w, Qz, tz))]
         if zold is not None:
-            out.append(('iterates_shape', z3.BoolVal(
-                len(L['yij']) == len(L['xijk']) == J
-                and all(len(a) == len(b) >= 1 for a, b in zip(L['yij'], L['xijk'])))))
+            shape_ok = (len(L['yij']) == len(L['xijk']) == J
+                        and all(len(a) == len(b) >= 1 for a, b in zip(L['yij'], L['xijk'])))
+            out.append(('iterates_shape', z3.BoolVal(shape_ok)))
             tzo = w.term(zold)
+            if shape_ok:
+                for j in range(J):
+                    for label, fm in pair_facts(w, cpre, tE, tS, th, goal_of(j, tzo),
+                                                L['yij'][j], L['xijk'][j]):
+                        out.append((f'goal{j}_{label}', fm))
+                    out.append((f'goal{j}_z_below_last_iterate',
+                                spec.subset(w, tz, w.term(L['yij'][j][-1]))))
             if state['ys'] and state['zprev'] is not None and z3.eq(
                     state['zprev'], tzo):
                 # at the back edge: M_j(zold) are the ghosts M'_j just made
@@ -329,6 +395,12 @@ def h_solve_streett_game(ctx):
     w.oblige('solve_streett_game.post: one list of attractor iterates and one list of trap layers per recurrence predicate, of equal positive lengths',
              z3.BoolVal(len(yij) == len(xijk) == J and all(
                  len(a) == len(b) >= 1 for a, b in zip(yij, xijk))))
+    if w.symbolic and len(yij) == len(xijk) == J:
+        for j in range(J):
+            for label, fm in pair_facts(w, cpre, tE, tS, th, goal_of(j, tz), yij[j], xijk[j]):
+                w.oblige(f'solve_streett_game.post: iterates of goal {j}: {label} w.r.t. the returned z (last adjacent pair; all pairs by induction)', fm)
+            w.oblige(f'solve_streett_game.post: z <= last attractor iterate of goal {j}',
+                     spec.subset(w, tz, w.term(yij[j][-1])))
     if w.symbolic:
         # on this path the loop exited: z == zold.  N_j := LFP_j(z).
         # congruence with M_j = LFP_j(zold) is a true fact (same operator,
